@@ -15,6 +15,29 @@ CHECKS = {
             'States are merged on model contents + alias relation + called-literal set; histories longer than the depth '
             'bound and keys/values outside the alphabet are not covered. Known finding: 0cX and "X" are one key.',
             'DESIGN.md §3 C10'),
+    'C13': ('E3-vloop', 'model_checking',
+            'exhaustive enumeration of stream fragmentations on a virtual loop (real StreamReader / stream_recv_msg / '
+            '_listen) + explicit-state BFS of remote-operation histories against a live server vs. a twin interpreter',
+            'Framing: every split of 1-3 consecutive frames into <= 3 reads (all pairs of cut positions) is consumed by '
+            'the real receive path; messages must come out intact, in order, each resolving its own future. Live: every '
+            'value of the transportable universe x every remote form (text, symbol call of arity 0-3, proxy, remote '
+            'dictionary get/set, :undefined, errors) and BFS over histories on two server-side names are executed '
+            'against a real server on loopback and compared with the same operation on a twin interpreter.',
+            'The live part uses real sockets/loops with sequential operations (exhaustive over values and histories, '
+            'not schedules; schedules of the client are C14). Values outside the universe are not covered.',
+            'DESIGN.md §3 C13'),
+    'C14': ('E2-sched', 'model_checking',
+            'stateless model checking: real NetworkClient on a virtual event loop as one logical thread of a controlled '
+            'scheduler, with caller threads and a scripted server thread; all interleavings up to a preemption bound',
+            'For every server script (response orders x cut class of each response x fault kind/position, drain that '
+            'suspends, close races) all schedules of loop handles, caller threads and server actions with <= 1 '
+            'preemption (quick; thorough: 2 for the small scripts) are executed on the real client; part of them '
+            'additionally at source-line granularity inside call/_listen/_run/_cleanup_pending_responses. Every '
+            'caller must return its own response or raise; a deadlock verdict is a hang.',
+            'Switches only at handle boundaries, result()/Event.wait, server actions (and source lines in line-level '
+            'mode); transport modelled as: EOF leaves the writer open, reset closes it; one transport event per loop '
+            'iteration. Server-side evaluation failures are exercised in C13.',
+            'DESIGN.md §3 C14, Appendix B, C'),
     'C15': ('E3-vloop', 'model_checking',
             'exhaustive enumeration of callback scripts x event-loop dispatch latencies (deviation-bounded) on a '
             'virtual-time asyncio loop running the real timer code, vs. a timer reference model',
